@@ -7,7 +7,7 @@ def classify(clause, case, verdict):
 
 
 def run(ctx):
-    ctx.prove()
+    ctx.prove(families=("vaa",))
     vaacommon.run_vaa(ctx, "c05", ("enc", "dec"), classify)
     ctx.cov["rule"] = ("enc: random VAAs (payload 1..4096 bytes incl. 999/1000/1001, thorough up to 200000; 0..255 signatures; boundary "
                        "field values) through the real Marshal+Unmarshal; dec: every truncation point of small encodings, header/"
